@@ -28,6 +28,9 @@ KsClauses(r) ==
     (* interval reference value the fit has seen, judged as regions of their own                *)
     <<"ConditionalOutsideFittedRange", AllDkw(r.extreme)>>,
     <<"ComponentsIndependent", AllDkw(r.indep)>>,
+    (* history on one object (sample, fit / assign parameters, sample): the sample is bit-for-bit *)
+    (* the one a fresh object with the same parameters gives for the same seed                    *)
+    <<"SameAsFreshObject", r.fresh>>,
     <<"SampleFinite", r.finite>>
   >>
 
